@@ -3,7 +3,8 @@
 
    Subject (read from the code and its documentation, not transcribed from a test):
      PhysicsParams::PhysicsParams(Input)          Buildable / ProcsOf / Tiles / AtRest / ElossP /
-       (build_ids, build_xs, build_model_xs)      IntegralOn / EMaxPos / HasMicro
+       (build_ids, build_xs, build_model_xs)      IntegralOn / EMaxPos / HasMicro ; Proj = what one
+                                                  track (particle, material) sees of the result
      PhysicsTrackView::operator=(Initializer)     InitTrack        mfp := 0
      PhysicsTrackView::interaction_mfp(x)         SetMfp           mfp := x  (x > 0)
      PhysicsTrackView::reset_interaction_mfp()    ResetMfp         mfp := 0
